@@ -336,6 +336,10 @@ func c14Pool(c *Ctx) {
 				okLoop := false
 				detail := "not in exactly one counting loop"
 				if len(loops) == 1 {
+					// `for range prom.concurrency` (range over an integer) runs exactly that many times
+					if rs, ok := loops[0].(*ast.RangeStmt); ok && fieldSel(info, rs.X, "internal/promapi.Prometheus", "concurrency") {
+						okLoop, detail = true, "range over prom.concurrency"
+					}
 					if f, ok := loops[0].(*ast.ForStmt); ok && f.Cond != nil && f.Init != nil && f.Post != nil {
 						if be, ok := ast.Unparen(f.Cond).(*ast.BinaryExpr); ok && fieldSel(info, be.Y, "internal/promapi.Prometheus", "concurrency") {
 							init, _ := f.Init.(*ast.AssignStmt)
